@@ -62,6 +62,9 @@ class P(Prop):
         ("TracklibVerif.Props.C19", "TV.C19.rounded_cell_in_grid", "in FLOATING-POINT arithmetic (the same model at rationals with every operation rounded; any monotone rounding with relative error u that keeps the integers up to the grid size): on the grid the constructor computes, every point of the extent, borders included, whatever rounding did to extent / resolution, gets a cell 0<=col<ncol, 0<=line<nrow (no IndexError, no wrap-around through a negative index) whose footprint contains it up to the rounding allowance ((x - xmin)(1 -+ u)^2 between the cell's edges; + u nrow ry for the lines)"),
         ("TracklibVerif.Props.C19", "TV.C19.rounded_conservation", "conservation for floats: with any monotone rounding that keeps the integers up to the grid size (no error bound needed) the scatter never fails, every value lands in exactly one cell of the grid, sizes sum to the number of observations, any per-value weight is conserved"),
         ("TracklibVerif.Props.C19", "TV.C19.scatter_stops_at_outside", "the scatter loop meeting an observation outside the extent: the observations before it are in their cells, TypeError there, nothing after it is scattered (the partial state addCollectionToRaster leaves in a feature's grid)"),
+        ("TracklibVerif.Props.C19Layout", "TV.C19.add_collection_by_name", "addCollectionToRaster depends on the tracks only through their positions and their values BY NAME for the features of the bands (any scalar type, floats included; any raster state, failing calls included)"),
+        ("TracklibVerif.Props.C19Layout", "TV.C19.track_layout_sound", "a track whose features are built by ANY script of createAnalyticalFeature / removeAnalyticalFeature / setObsAnalyticalFeature calls on the concrete table (dictionary of ranks + Obs.features): what is read through the ranks is the table's content by name after the same script; one value per observation for every feature; no name twice"),
+        ("TracklibVerif.Props.C19Layout", "TV.C19.add_collection_layout_independent", "two collections whose tracks were built by different scripts (creation order, extra / temporary / re-created features) with the same content by name are scattered alike: same raster state, same outcome"),
         ("TracklibVerif.Props.C19", "TV.C19.compute_failing_bands", "a failing computeAggregates: the bands before the first band that raises are rewritten, that band and the following ones are exactly as they were, nothing else of the raster changes"),
     ]
     partial = []
@@ -79,13 +82,17 @@ class P(Prop):
                 "track x feature x observation with Python list indexing, TypeError on an observation outside the grid leaving the partial scatter), computeAggregates (bands in "
                 "insertion order, IndexError / AttributeError / KeyError / NameError at the first cell of a band, NaN -> the raster's current no-data value, None included — fix 279f7b2), get/setNoDataValue; "
                 "algo/summarising.py summarize (argument checks, bounding box, one addAFMap per (feature, operator) in call order via AFMap.getMeasureName, add, compute); "
-                "core/track.py hasAnalyticalFeature / getObsAnalyticalFeature for uid, x, y, idx and the track's own features; "
+                "core/track.py hasAnalyticalFeature / getObsAnalyticalFeature for uid, x, y, idx and the track's own features, read through the track's OWN dictionary of ranks: "
+                "the feature table of a track (Model/RasterLayout.lean on the table model of C01, Model/Features.lean: __analyticalFeaturesDico + Obs.features, createAnalyticalFeature(name, list), "
+                "removeAnalyticalFeature with its shift of the later ranks, setObsAnalyticalFeature) — a track that comes with a layout script is built by the driver on that table and the raster model reads it by rank; "
                 "core/utils.py co_count co_sum co_min co_max co_avg co_median; the collection's bounding box is modelled as min/max of the coordinates. "
                 "The geometry definitions (mkGrid, getCell, scatter) are also instantiated at rationals with every operation rounded (Lemmas/RasterRounded.lean: RQ rnd) for the floating-point theorems")
     trusted = ["math.floor / math.ceil / float.is_integer are taken as exact floor, ceiling and integrality of the float;",
                "the iteration order of the Python set of features in addCollectionToRaster is recomputed by the harness (same insertions, same process) and passed to the model; "
                "it only matters for the values left behind when the scatter raises;",
-               "a band name crosses the protocol as its '#'-separated parts"]
+               "a band name crosses the protocol as its '#'-separated parts;",
+               "the harness builds the tracks (Track / Obs / addObs, the feature script) with tracklib's own Track API: a failure there is reported as 'harness:build' "
+               "(a correspondence disagreement, no oracle verdict), the oracle reads the expected feature values from the case, never from the Track object"]
     rule = ("exhaustive: grids over [0,W]x[0,H] (W,H in 1..3) for every listed resolution, getCell of every half-integer lattice point in [-0.5,W+0.5]x[-0.5,H+0.5]; "
             "one-track collections (0,0),(2,2),p for every lattice p in [0,2]^2, every listed resolution; "
             "every north-south and east-west line of 1..4 observations (steps 0.5 and 1; 1 observation = a single fix) for every listed resolution, margins 0 and 0.25 "
@@ -104,6 +111,11 @@ class P(Prop):
             "grids of right and wrong shape, observations outside), soup (3..9 random calls incl. summarize in scalar / callable / duplicated / ragged / empty argument forms, features x, y, idx); "
             "after every call the whole object state (geometry, no-data, every band, collectionValuesGrid) is compared with the model; the oracle checks, after every well-formed "
             "addCollectionToRaster, the footprint of every observation's cell and the values kept per cell, and after every computeAggregates EVERY band against the collection scattered LAST; "
+            "FEATURE LAYOUTS: the rank of a feature in Obs.features is per track; half of the generated collections (summarize cases of every stream and sessions) give every track its own "
+            "layout script — the features created in another order, an extra feature 'aux' created before / between them and kept, a temporary feature removed after others were created (their ranks move down), "
+            "a feature removed and created again (now the last one) — so that the summarised feature has different ranks on the tracks of one collection (about 1 collection in 4); filler values of the extra "
+            "columns are values no feature of the case takes (NaN 1 in 4); exhaustive: two tracks with every ordered pair of 9 scripts, as one summarize call and as calls on one raster; "
+            "sessions: delfeat (removeAnalyticalFeature on ONE track between / before the scatters, most of the time followed by a setfeat that re-creates it at the last rank); "
             "direct calls of the cell operators in sequence on ONE list (every ordered pair on fixed lists, random sequences), checking the values and that the list "
             "is left unchanged. "
             "NEAR-INTEGRAL FLOAT EXTENTS (Float): per axis a cell size from 14 values (0.1, 0.3, 1/3, 0.7, 60, ...), k = 1..6 cells, an origin (0.1, 0.2, -0.7, 1000.1, random, a multiple of the cell), "
